@@ -982,7 +982,7 @@ fn check_case(prop: &str, c: &Case) -> (Vec<(String, String, String)>, u64, Vec<
         let mm = multi_map(ast);
         let canon = |o: &Outcome| -> Outcome {
             match o {
-                Outcome::Ok(s) if mm && s.starts_with("S:") => {
+                Outcome::Ok(s) if mm && s.contains("S:") => {
                     let mut ch: Vec<char> = s.chars().collect();
                     ch.sort();
                     Outcome::Ok(ch.into_iter().collect())
